@@ -9,17 +9,54 @@
 (* Trace_RoundTrip.tla evaluates RoundTrip!RoundTripOK on the two outputs.        *)
 EXTENDS RoundTrip, TLC, Json
 
-CONSTANTS MaxItems, KS, CS, SH
+CONSTANTS MaxItems, KS, CS, SH,
+          CT,       \* names of the comment texts used (class "cmt")
+          FN        \* names of the function names used (kinds d_callx, m_callx)
 
 Rep == [ascii |-> <<120>>, latin1 |-> <<233>>, latin1sym |-> <<167>>, bmp |-> <<20013>>, bmpsym |-> <<9731>>,
         astral |-> <<66560>>, astralsym |-> <<128512>>, private |-> <<57344>>, privastral |-> <<983040>>,
         combining |-> <<769>>, dquote |-> <<34>>, squote |-> <<39>>, quotes2 |-> <<34, 39>>, backslash |-> <<92>>,
-        control |-> <<7>>, newline |-> <<10>>, tab |-> <<9>>, space |-> <<32>>, none |-> <<>>]
+        control |-> <<7>>, newline |-> <<10>>, tab |-> <<9>>, space |-> <<32>>, none |-> <<>>,
+        digit |-> <<49>>, hyphen |-> <<45>>, cmt |-> <<32>>]
 
 Content(cls, sh) == CASE sh = "solo" -> Rep[cls]
                       [] sh = "mid"  -> <<97>> \o Rep[cls] \o <<98>>
                       [] sh = "dig"  -> Rep[cls] \o <<49>>
                       [] sh = "two"  -> Rep[cls] \o Rep[cls]
+                      [] sh = "lead" -> Rep[cls] \o <<122>>             \* c z   (the class character starts the content)
+                      [] sh = "leadhex" -> Rep[cls] \o <<97, 49>>       \* c a 1 (... followed by a hex digit letter)
+
+(* comment texts: the whole text between the delimiters.  a = 97, b = 98, LF = 10, CR = 13 *)
+CmtText == [
+  empty     |-> <<>>,                                 \* /**/
+  sp        |-> <<32>>,                               \* /* */
+  one       |-> <<32, 97, 32>>,                       \* /* a */
+  nl_start  |-> <<10, 97, 32>>,                       \* line break right after the opening
+  nl_mid    |-> <<32, 97, 10, 98, 32>>,
+  nl_end    |-> <<32, 97, 10>>,                       \* the closing delimiter at column 0 of its own line
+  banner    |-> <<10, 97, 10>>,                       \* /*\na\n*/
+  banner2   |-> <<10, 97, 10, 98, 10>>,
+  ind_close |-> <<32, 97, 10, 32, 32>>,               \* indented closing delimiter
+  crlf      |-> <<32, 97, 13, 10, 98, 32>>,
+  crlf_end  |-> <<13, 10, 97, 13, 10>>,
+  cr        |-> <<32, 97, 13, 98, 32>>,
+  blank_in  |-> <<32, 97, 10, 10, 98, 32>>,           \* a blank line inside the comment
+  stars     |-> <<10, 32, 42, 32, 97, 10, 32>>,       \* /*\n * a\n */
+  sp_nl     |-> <<32, 97, 32, 10>>,
+  only_nl   |-> <<10>>,
+  nlnl_end  |-> <<32, 97, 10, 10>>,
+  tabs      |-> <<9, 97, 10, 9>>,
+  deep      |-> <<32, 97, 10, 32, 32, 32, 32, 32, 32, 98, 10, 32, 32, 32, 233, 32>> ]
+
+(* function names, lower and mixed case (compared case-sensitively like everything else) *)
+FnName == [
+  translate  |-> <<116, 114, 97, 110, 115, 108, 97, 116, 101>>,
+  translateX |-> <<116, 114, 97, 110, 115, 108, 97, 116, 101, 88>>,
+  rotateZ    |-> <<114, 111, 116, 97, 116, 101, 90>>,
+  scaleY     |-> <<115, 99, 97, 108, 101, 89>>,
+  Foo        |-> <<70, 111, 111>>,
+  X          |-> <<88>>,
+  aB1        |-> <<97, 66, 49>> ]
 
 VARIABLES items, phase
 vars == <<items, phase>>
@@ -28,9 +65,12 @@ Init == items = <<>> /\ phase = "build"
 Add == /\ phase = "build" /\ Len(items) < MaxItems
        /\ \E k \in KS :
             IF k \in NoSlot THEN items' = Append(items, [k |-> k, cls |-> "none", cps |-> <<>>])
-            ELSE \E c \in CS, s \in SH :
-                   /\ ~(k = "comment" /\ c \in {"newline", "control"})
-                   /\ items' = Append(items, [k |-> k, cls |-> c, cps |-> Content(c, s)])
+            ELSE IF k \in FnKinds THEN \E f \in FN : items' = Append(items, [k |-> k, cls |-> "ascii", cps |-> FnName[f]])
+            ELSE \/ \E c \in CS, s \in SH :
+                      /\ ~(k \in CommentKinds /\ c \in {"newline", "control"})
+                      /\ items' = Append(items, [k |-> k, cls |-> c, cps |-> Content(c, s)])
+                 \/ /\ k \in CommentKinds
+                    /\ \E t \in CT : items' = Append(items, [k |-> k, cls |-> "cmt", cps |-> CmtText[t]])
        /\ UNCHANGED phase
 Finish == phase = "build" /\ items # <<>> /\ phase' = "done" /\ UNCHANGED items
 Next == Add \/ Finish
@@ -45,6 +85,15 @@ L1 == <<<<97, 32, 123>>, <<32, 32, 98, 58, 32, 34, 233, 34, 59>>, <<125>>, <<>>>
 L2 == <<<<97, 32, 123>>, <<>>, <<32, 32, 98, 58, 32, 34, 233, 34, 59>>, <<32>>, <<125>>, <<>>, <<>>>>     \* + blank lines
 L3 == <<<<97, 32, 123>>, <<32, 32, 98, 58, 32, 34, 101, 34, 59>>, <<125>>, <<>>>>          \* é -> e
 L4 == <<<<97, 32, 123>>, <<125>>, <<32, 32, 98, 58, 32, 34, 233, 34, 59>>, <<>>>>          \* lines swapped
+C1 == <<<<47, 42>>, <<97>>, <<42, 47>>, <<>>>>                     \* /*\na\n*/\n
+C2 == <<<<47, 42>>, <<97, 42, 47>>, <<>>>>                          \* /*\na*/\n   (the line break before the closing lost)
+C3 == <<<<47, 42, 32, 97>>, <<>>, <<98, 32, 42, 47>>, <<>>>>        \* /* a\n\nb */\n
+C4 == <<<<47, 42, 32, 97>>, <<98, 32, 42, 47>>, <<>>>>              \* the blank line inside the comment lost
+C5 == <<<<97, 32, 123>>, <<32, 32, 47, 42, 32, 97>>, <<32, 32, 98, 32, 42, 47>>, <<125>>, <<>>>>              \* a {\n  /* a\n  b */\n}
+C6 == <<<<97, 32, 123>>, <<32, 32, 47, 42, 32, 97>>, <<32, 32, 32, 32, 98, 32, 42, 47>>, <<125>>, <<>>>>      \* continuation line deeper
+C7 == <<<<97, 32, 123>>, <<32, 32, 47, 42, 32, 97>>, <<32, 32, 32, 32, 99, 32, 42, 47>>, <<125>>, <<>>>>      \* ... and another letter
+C8 == <<<<97, 32, 123>>, <<32, 32, 98, 58, 32, 34, 47, 42, 34, 59>>, <<>>, <<125>>, <<>>>>                    \* "/*" in a string opens nothing
+C9 == <<<<97, 32, 123>>, <<32, 32, 98, 58, 32, 34, 47, 42, 34, 59>>, <<125>>, <<>>>>
 L5 == <<<<97, 32, 123>>, <<32, 32, 98, 58, 32, 34, 92, 34, 39, 34, 59>>, <<125>>, <<>>>>   \* a {\n  b: "\"'";\n}\n
 L6 == <<<<97, 32, 123>>, <<32, 32, 98, 58, 32, 34, 34, 39, 34, 59>>, <<125>>, <<>>>>       \* the quote not escaped
 R(st, l) == [st |-> st, lines |-> l]
@@ -57,6 +106,13 @@ ASSUME Laws ==
   /\ ~RoundTripOK(R("ok", L1), R("err", <<>>))
   /\ ~RoundTripOK(R("ok", <<>>), R("ok", L1))
   /\ RoundTripOK(R("ok", <<>>), R("ok", <<<<>>>>))
+  /\ RoundTripOK(R("ok", C1), R("ok", C1)) /\ ~RoundTripOK(R("ok", C1), R("ok", C2))      \* comment text is compared exactly
+  /\ RoundTripOK(R("ok", C3), R("ok", C3)) /\ ~RoundTripOK(R("ok", C3), R("ok", C4))      \* also its blank lines
+  /\ RoundTripOK(R("ok", C8), R("ok", C9))                                                \* blank lines outside comments do not count
+  /\ ~RoundTripOK(R("ok", C5), R("ok", C6))
+  /\ SameLinesD(C5, C6, {"comment_reindent_grows"}) /\ ~SameLinesD(C5, C7, {"comment_reindent_grows"})
+  /\ ~SameLinesD(C1, C2, {"comment_reindent_grows"}) /\ ~SameLinesD(C3, C4, {"comment_reindent_grows"})
+  /\ InComment(C5) = <<0, 0, 1, 0, 0>> /\ InComment(C8) = <<0, 0, 0, 0, 0>>
 (* the deviations' scopes are what was observed, nothing more *)
 It(k, c, cps) == [k |-> k, cls |-> c, cps |-> cps]
 ASSUME Scopes ==
